@@ -86,9 +86,12 @@ def check(run, repo, world):
         "inter-byte state lives in self attributes, so chunking cannot "
         "matter; (R-FSM-CHK) checksum span and start byte agree with the "
         "transmitter; (R-FSM-ESC) enum conversions outside the per-type "
-        "handlers are guarded.  NOT decided: equality with a reference "
-        "deframer on all streams (resynchronisation policy is a value "
-        "property).")
+        "handlers are guarded; (R-FSM-NEXT) per state, the set of next "
+        "states over all paths (exceptions of try bodies included) equals "
+        "the framing's transition table, so a frame is consumed to its end "
+        "and reception resumes at the next frame boundary.  NOT decided: "
+        "equality with a reference deframer on all streams (which frames "
+        "are delivered is a value property).")
     run.assumptions += ["bytes iteration yields ints 0..255",
                         "per-type handlers may raise deliberately for "
                         "malformed payloads (set aside by the property)"]
